@@ -1,6 +1,8 @@
 """Shared structural model of metrics.APE / metrics.RPE used by C01, C02, C12."""
 from __future__ import annotations
 
+import ast
+
 from typing import Dict, List, Optional, Tuple
 
 from .. import terms as tm
@@ -31,8 +33,13 @@ EST = tm.sub(DATA, const(1))
 SELF = tm.param("self")
 
 
+_PROG = None
+
+
 def run_relation(prog, cls_name: str, member: str,
                  extra: Optional[Dict[str, T]] = None) -> Result:
+    global _PROG
+    _PROG = prog
     f = prog.func(f"evo.core.metrics.{cls_name}.process_data")
     preset = {(SELF, "pose_relation"): tm.enum(prog.cls(PR).qualname, member)}
     for k, v in (extra or {}).items():
@@ -110,17 +117,34 @@ def match_reducer(elt: T):
     if is_call_to(x, "builtins.float") and len(x.args[1]) == 1:
         x = x.args[1][0]
     if is_call_to(x, LIE + "so3_log_angle") and x.args[1]:
-        deg = False
-        if len(x.args[1]) > 1:
-            d = x.args[1][1]
-            if not tm.is_const(d):
-                return None
-            deg = bool(d.args[1])
+        # bind the actual arguments to the callee's *current* signature
+        params = ["r", "degrees"]
+        defaults = {"degrees": False}
+        if _PROG is not None:
+            fn = _PROG.func(LIE + "so3_log_angle")
+            params = list(fn.params)
+            defaults = {}
+            for k, dv in fn.defaults().items():
+                try:
+                    defaults[k] = ast.literal_eval(dv)
+                except Exception:
+                    defaults[k] = None
+        if "degrees" not in params or len(x.args[1]) > len(params):
+            return None
+        bound = dict(zip(params, x.args[1]))
         for k, v in x.args[2]:
-            if k == "degrees":
-                if not tm.is_const(v):
-                    return None
-                deg = bool(v.args[1])
+            bound[k] = v
+        d = bound.get("degrees")
+        if d is None:
+            if defaults.get("degrees") not in (True, False):
+                return None
+            deg = bool(defaults["degrees"])
+        elif tm.is_const(d):
+            deg = bool(d.args[1])
+        else:
+            return None
+        if bound.get(params[0]) is not x.args[1][0]:
+            return None
         b = _blk(x.args[1][0])
         if b is None:
             return dict(family="angle", degrees=deg, block="whole",
